@@ -1933,19 +1933,13 @@ clientReplyContext::processReplyAccessResult(const Acl::Answer &accessAllowed)
     if ((!http->request->range))
         next()->readBuffer.offset = 0;
 
-    if (next()->readBuffer.offset > 0) {
-        if (Less(body_size, next()->readBuffer.offset)) {
-            /* Can't use any of the body we received. send nothing */
-            localTempBuffer.length = 0;
-            localTempBuffer.data = nullptr;
-        } else {
-            localTempBuffer.length = body_size - next()->readBuffer.offset;
-            localTempBuffer.data = body_buf + next()->readBuffer.offset;
-        }
-    } else {
-        localTempBuffer.length = body_size;
-        localTempBuffer.data = body_buf;
-    }
+    // Always hand over the first body bytes as what they are: object bytes
+    // starting at offset 0. Skipping ahead to readBuffer.offset here (while
+    // labeling the result as offset 0) corrupted 200 responses whenever
+    // Http::Stream::buildRangeHeader() decided to ignore the Range later.
+    // Http::Stream skips the bytes that precede the first requested range.
+    localTempBuffer.length = body_size;
+    localTempBuffer.data = body_buf;
 
     clientStreamCallback((clientStreamNode *)http->client_stream.head->data,
                          http, reply, localTempBuffer);
